@@ -350,6 +350,10 @@ func genSeqPlan(prop string, seed uint64, tier string) *Plan {
 			p.Groups = append(p.Groups, grp)
 		}
 	}
+	if prop == "C13" && len(p.Groups) > 0 && r.Bool(1, 3) {
+		p.Extra["benignCollide"] = 1
+		c.CheckVHash = false
+	}
 	restarts := 0
 	earlyRestart := 0
 	if r.Bool(1, 2) {
@@ -368,7 +372,7 @@ func genSeqPlan(prop string, seed uint64, tier string) *Plan {
 			p.Ops = append(p.Ops, Op{ID: idBase, Kind: "set", K: k, V: ValSpec{Class: VConst, Len: r.Range(8, 20), Seed: uint32(r.U64())}})
 		}
 	}
-	if (prop == "C03" || prop == "C18" || prop == "C07" || prop == "C13" || prop == "C08") && len(c.Served) > 0 && r.Bool(2, 5) {
+	if (prop == "C03" || prop == "C18" || prop == "C07" || prop == "C13" || prop == "C08") && len(c.Served) > 0 && p.Extra["benignCollide"] == 0 && r.Bool(2, 5) {
 		// scenario template: short first file, overwrites/deletes of its keys in later files, a
 		// restart that rebuilds the tree (tombstones leave the index), a pass that does not start
 		// at file 0, a restart with rebuilt indexes, then the usual random tail
@@ -429,6 +433,14 @@ func genSeqPlan(prop string, seed uint64, tier string) *Plan {
 			op.Flag = genFlag(r)
 			if op.Flag == flagIncr && r.Bool(3, 4) {
 				op.V.Class = VNumber
+			}
+			if op.Flag == flagClientCompress && r.Bool(1, 2) {
+				// what a client that compresses by itself really sends: a QuickLZ stream (or bytes
+				// that look like one); the server must hand it back verbatim
+				op.V.Class = r.Pick(VQlz, VQlz, VQlzStored)
+				if op.V.Len > 20000 {
+					op.V.Len = 20000
+				}
 			}
 			op.Verb = []string{"set", "set", "set", "add", "replace", "cas"}[r.Intn(6)]
 			switch r.Intn(6) {
@@ -515,6 +527,32 @@ func genSeqPlan(prop string, seed uint64, tier string) *Plan {
 		}
 		if op.Kind == "gc" && (prop == "C03" || prop == "C18" || prop == "C07") && earlyRestart > 0 && r.Bool(1, 2) {
 			op.GCStart = r.Pick(1, 1, 2)
+		}
+		if p.Extra["benignCollide"] == 1 {
+			// benign collision world: no operation through which a *recorded* finding of C13 can
+			// act (same-value shortcut, delete, incr, GC); what remains - sets, reads, flushes, hint
+			// dumps and merges, restarts with rebuilt indexes - must work for colliding keys, and a
+			// violation here is never absorbed as a known finding
+			switch op.Kind {
+			case "del", "incr":
+				if r.Bool(1, 2) {
+					op.Kind = "get"
+				} else {
+					op.Kind = "set"
+					op.V = genValSpec(r, c, len(p.Keys[op.K]), bias)
+					op.Flag, op.Rev, op.Verb = 0, 0, "set"
+				}
+			case "gc", "merge":
+				// (the merge op calls hintMgr.Merge directly; the shipped code reaches a merge only
+				// through GC with merge=on, its automatic start is dead code)
+				op.Kind = "get"
+			}
+			if op.Kind == "set" {
+				op.VID = 0 // every value unique
+				if op.V.Len == 0 {
+					op.V.Len = 1 + r.Intn(20) // (two empty values have equal bytes: not distinguishable)
+				}
+			}
 		}
 		if op.Kind == "set" && op.Rev != 0 {
 			for _, grp := range p.Groups {
